@@ -10,29 +10,40 @@ Input == JsonDeserialize(IOEnv.TRACE_FILE)
 Vocab == Input.vocab                       \* [label -> [terms |-> <<..>>, short |-> ".."]]
 RealLabels == DOMAIN Vocab
 Elems(s) == {s[i] : i \in DOMAIN s}
-TraceTerms == [l \in AbsLabels \cup RealLabels |-> IF l \in AbsLabels THEN AbsTerms[l] ELSE Elems(Vocab[l].terms)]
-TraceShort == [l \in AbsLabels \cup RealLabels |-> IF l \in AbsLabels THEN AbsShort[l] ELSE Vocab[l].short]
+TermsFor(l) == IF l = GRP THEN {} ELSE Elems(Vocab[l].terms)      \* the vocabulary key IS the short form
 
-VARIABLES kind, idx
-tvars == <<vars, kind, idx>>
-TraceInit == /\ tree = EmptyTree /\ toks = <<>>
-             /\ \/ kind = "family" /\ idx \in 1..Len(Input.families)
-                \/ kind = "case" /\ idx \in 1..Len(Input.cases)
-                \/ kind = "text" /\ idx \in 1..Len(Input.texts)
-TraceSpec == TraceInit /\ [][UNCHANGED tvars]_tvars
+\* root -> one state per block of BlockSize items -> one state per item (two-level fan-out so that
+\* the TLC workers share the items)
+VARIABLES kind, blk, idx
+tvars == <<vars, kind, blk, idx>>
+BlockSize == 20
+Items(k) == CASE k = "family" -> Input.families [] k = "case" -> Input.cases [] k = "text" -> Input.texts
+TraceInit == tree = EmptyTree /\ toks = <<>> /\ kind = "root" /\ blk = 0 /\ idx = 0
+TraceNext == /\ UNCHANGED vars
+             /\ \/ /\ kind = "root"
+                   /\ kind' \in {"family", "case", "text"}
+                   /\ Len(Items(kind')) > 0
+                   /\ blk' \in 0..((Len(Items(kind')) - 1) \div BlockSize)
+                   /\ idx' = 0
+                \/ /\ kind # "root" /\ idx = 0
+                   /\ UNCHANGED <<kind, blk>>
+                   /\ idx' \in (blk * BlockSize + 1)..(IF (blk + 1) * BlockSize < Len(Items(kind)) THEN (blk + 1) * BlockSize ELSE Len(Items(kind)))
+TraceSpec == TraceInit /\ [][TraceNext]_tvars
 
 \* ---- families
-One(l) == [n |-> 1, par |-> <<0>>, lab |-> <<l>>]
+One(l, ts) == [n |-> 1, par |-> <<0>>, lab |-> <<l>>, terms |-> <<ts>>]
 AbsOrder == <<"p", "ra", "rb", "c", "v/x">>
 FamilyOK(f) == /\ Len(f.atoms) = Len(GA)
                /\ Len(f.labs) = Len(AbsOrder)
                /\ \A i \in 1..Len(GA) : \A j \in 1..Len(AbsOrder) :
-                     TagMatches(One(f.labs[j]), 1, f.atoms[i]) = TagMatches(One(AbsOrder[j]), 1, GA[i])
-               /\ \A j, k \in 1..Len(AbsOrder) : j # k => TraceShort[f.labs[j]] # TraceShort[f.labs[k]]
+                     TagMatches(One(f.labs[j], TermsFor(f.labs[j])), 1, f.atoms[i])
+                        = TagMatches(One(AbsOrder[j], AbsTerms[AbsOrder[j]]), 1, GA[i])
+               /\ \A j, k \in 1..Len(AbsOrder) : j # k => f.labs[j] # f.labs[k]
+               /\ \A j \in 1..Len(AbsOrder) : Vocab[f.labs[j]].short = f.labs[j]
 
 \* ---- cases
-TreeOf(c) == [n |-> c.n, par |-> c.par, lab |-> c.lab]
-Bools(T, qs) == [i \in 1..Len(qs) |-> Match(T, qs[i])]
+TreeOf(c) == [n |-> c.n, par |-> c.par, lab |-> c.lab, terms |-> [k \in 1..c.n |-> TermsFor(c.lab[k])]]
+Bools(tr, qs) == [i \in 1..Len(qs) |-> Match(tr, qs[i])]
 \* law tuple: positions of  A, B, C, A||B, A&&B, B&&A, (A&&B)&&C, A&&(B&&C)  in qs
 LawFails(r, L) ==
     (IF r[L[4]] # (r[L[1]] \/ r[L[2]]) THEN {"OrIff"} ELSE {})
@@ -40,14 +51,14 @@ LawFails(r, L) ==
     \cup (IF r[L[5]] # r[L[6]] THEN {"AndSymmetric"} ELSE {})
     \cup (IF r[L[7]] # r[L[8]] THEN {"AndAssociative"} ELSE {})
 CaseVerdict(c) ==
-    LET T == TreeOf(c)
-        r == Bools(T, c.qs)
+    LET t1 == TreeOf(c)
+        r == Bools(t1, c.qs)
         hasperm == Len(c.perm) = c.n /\ c.n > 0
-        T2 == IF hasperm /\ IsPerm(T, c.perm) THEN Relabel(T, c.perm) ELSE T
-        r2 == Bools(T2, c.qs)
-    IN [i |-> idx, treeok |-> PreOK(T) /\ PreOK(T2) /\ \A j \in 1..Len(c.qs) : WellFormed(c.qs[j]),
+        t2 == IF hasperm /\ IsPerm(t1, c.perm) THEN Relabel(t1, c.perm) ELSE t1
+        r2 == Bools(t2, c.qs)
+    IN [i |-> idx, treeok |-> PreOK(t1) /\ PreOK(t2) /\ \A j \in 1..Len(c.qs) : WellFormed(c.qs[j]),
         res |-> r, res2 |-> r2,
-        dw |-> [j \in 1..Len(c.dw) |-> DistinctWitness(T, c.qs[c.dw[j][1]], c.qs[c.dw[j][2]])],
+        dw |-> [j \in 1..Len(c.dw) |-> DistinctWitness(t1, c.qs[c.dw[j][1]], c.qs[c.dw[j][2]])],
         lawfails |-> IF Len(c.law) = 8 THEN LawFails(r, c.law) ELSE {},
         sibfails |-> {j \in 1..Len(c.qs) : r[j] # r2[j]}]
 
@@ -56,7 +67,7 @@ TextVerdict(s) == [i |-> idx, text |-> s, balanced |-> Balanced(s), strict |-> A
                    lenient |-> Accepts(s, TRUE), swallowed |-> Swallowed(s),
                    rd |-> RDAccepts(Tokenize(s), TRUE)]
 
-Report ==
+Report == idx = 0 \/
     CASE kind = "family" -> PrintT("@@EMIT@@" \o ToJson([family |-> idx, ok |-> FamilyOK(Input.families[idx])]))
       [] kind = "case"   -> PrintT("@@EMIT@@" \o ToJson([case |-> CaseVerdict(Input.cases[idx])]))
       [] kind = "text"   -> PrintT("@@EMIT@@" \o ToJson([textv |-> TextVerdict(Input.texts[idx])]))
